@@ -298,14 +298,14 @@ Definition os0 := mkOs false false false false None.
 Inductive skind := SP | SPE | ST (dl:N) | SI (f:nat) | SO (f:nat).
 Inductive rkind := REpoll | RPoll | RSelect.
 Record sim := mkSim { ms : st; os : list osfd; phases : list (list op); bodies : list (N * list op); stage : nat;
-                      tmeta : list (N * (bool * N)); sout : list (N*skind); rk : rkind; pickhi : bool; mark : nat }.
-Definition set_ms (x:sim) v := mkSim v (os x) (phases x) (bodies x) (stage x) (tmeta x) (sout x) (rk x) (pickhi x) (mark x).
-Definition set_os (x:sim) v := mkSim (ms x) v (phases x) (bodies x) (stage x) (tmeta x) (sout x) (rk x) (pickhi x) (mark x).
-Definition set_phases (x:sim) v := mkSim (ms x) (os x) v (bodies x) (stage x) (tmeta x) (sout x) (rk x) (pickhi x) (mark x).
-Definition set_stage (x:sim) v := mkSim (ms x) (os x) (phases x) (bodies x) v (tmeta x) (sout x) (rk x) (pickhi x) (mark x).
-Definition set_tmeta (x:sim) v := mkSim (ms x) (os x) (phases x) (bodies x) (stage x) v (sout x) (rk x) (pickhi x) (mark x).
-Definition set_mark (x:sim) v := mkSim (ms x) (os x) (phases x) (bodies x) (stage x) (tmeta x) (sout x) (rk x) (pickhi x) v.
-Definition set_sout (x:sim) v := mkSim (ms x) (os x) (phases x) (bodies x) (stage x) (tmeta x) v (rk x) (pickhi x) (mark x).
+                      tmeta : list (N * (bool * N)); sout : list (N*skind); rk : rkind; pickhi : bool; mark : nat; pickall : bool }.
+Definition set_ms (x:sim) v := mkSim v (os x) (phases x) (bodies x) (stage x) (tmeta x) (sout x) (rk x) (pickhi x) (mark x) (pickall x).
+Definition set_os (x:sim) v := mkSim (ms x) v (phases x) (bodies x) (stage x) (tmeta x) (sout x) (rk x) (pickhi x) (mark x) (pickall x).
+Definition set_phases (x:sim) v := mkSim (ms x) (os x) v (bodies x) (stage x) (tmeta x) (sout x) (rk x) (pickhi x) (mark x) (pickall x).
+Definition set_stage (x:sim) v := mkSim (ms x) (os x) (phases x) (bodies x) v (tmeta x) (sout x) (rk x) (pickhi x) (mark x) (pickall x).
+Definition set_tmeta (x:sim) v := mkSim (ms x) (os x) (phases x) (bodies x) (stage x) v (sout x) (rk x) (pickhi x) (mark x) (pickall x).
+Definition set_mark (x:sim) v := mkSim (ms x) (os x) (phases x) (bodies x) (stage x) (tmeta x) (sout x) (rk x) (pickhi x) v (pickall x).
+Definition set_sout (x:sim) v := mkSim (ms x) (os x) (phases x) (bodies x) (stage x) (tmeta x) v (rk x) (pickhi x) (mark x) (pickall x).
 
 Definition stp (l:label) (x:sim) : sim := set_ms x (step l (ms x)).
 Definition os_get (x:sim) (f:nat) : osfd := nth f (os x) os0.
@@ -409,6 +409,10 @@ Definition poll_phase (x0:sim) : sim :=
   else
     let ch := choose x (filter (fd_ready x) fds) in
     let intr := woken (ms x) in
+    if pickall x && match ch with Some _ => true | None => false end
+    then (* batch mode: every ready descriptor is reported (the real loop shuffles them; the check sorts) *)
+         stp (LPollEnd (map (fd_event x) (filter (fd_ready x) fds)) intr) x
+    else
     match ch with
     | Some f => stp (LPollEnd [fd_event x f] intr) x
     | None => if intr then stp (LPollEnd [] true) x else stp (LPollEnd [] false) (nothing_ready x)
@@ -441,10 +445,10 @@ Fixpoint run_sim (fuel:nat) (x:sim) : sim * bool :=
   end.
 
 Definition START_MS : N := 100000.
-Definition sim0 (r:rkind) (hi:bool) (nfd:nat) (ph:list (list op)) (bd:list (N*list op)) : sim :=
-  mkSim (set_clock st0 START_MS) (repeat os0 nfd) ph bd 0%nat [] [] r hi 0%nat.
-Definition run_script (fuel:nat) (r:rkind) (hi:bool) (nfd:nat) (ph:list (list op)) (bd:list (N*list op)) : sim * bool :=
-  let x := sim0 r hi nfd ph bd in
+Definition sim0 (r:rkind) (hi al:bool) (nfd:nat) (ph:list (list op)) (bd:list (N*list op)) : sim :=
+  mkSim (set_clock st0 START_MS) (repeat os0 nfd) ph bd 0%nat [] [] r hi 0%nat al.
+Definition run_script (fuel:nat) (r:rkind) (hi al:bool) (nfd:nat) (ph:list (list op)) (bd:list (N*list op)) : sim * bool :=
+  let x := sim0 r hi al nfd ph bd in
   let x1 := match phases x with ops::rest => do_ops ops (set_phases x rest) | [] => x end in
   run_sim fuel x1.
 
